@@ -604,7 +604,51 @@ def rule_meta(ctx):
     ctx.floor("C07.META", "metadata fields checked", n, 150)
 
 
+_RANGE_CASES = [
+    ("declared defaults", dict(min=0, max=0, step=0)),
+    ("ordinary", dict(min=-90.0, max=90.0, step=0.5)),
+    ("very fine step", dict(min=0.0, max=1.0, step=0.00001)),
+    ("very wide range", dict(min=-1e20, max=1e20, step=1000000.0)),
+    ("integers", dict(min=-5, max=65535, step=1)),
+]
+
+
+def rule_range(ctx):
+    """A number's declared range is metadata the driver passes through as it was declared (Python numbers of any
+    magnitude): building the definition's part must neither fail nor alter it.  A part constructor that validates min /
+    max / step like wire text rejects every value whose str() is in exponent form (step=0.00001, max=1e20): the property
+    - and every property after it in the same reply - is never defined."""
+    p = ctx.p
+    ci = p.cls("indi.message.def_parts.DefNumber")
+    init = ci.find_method("__init__")
+    n = 0
+    bad = False
+    for label, rng in _RANGE_CASES:
+        kw = {"name": Const("A"), "value": Const("1.5"), "label": Const("LabelA"), "format": Const("%f")}
+        kw.update({k: Const(v) for k, v in rng.items()})
+        res = abstract_construct(p, ci, kw, inline_prefixes=("indi.message.", "indi.message.checks."))
+        ctx.paths_enumerated += len(res)
+        n += 1
+        if len(res) != 1:
+            ctx.undecided("C07.RANGE", f"{ci.short}[{label}]", f"construction is not decided by constant evaluation ({len(res)} paths)", ci=ci)
+            bad = True
+            continue
+        pa, o = res[0]
+        if pa.outcome != "return":
+            ctx.violated("C07.RANGE", f"{ci.short}[{label}]", f"DefNumber(min={rng['min']!r}, max={rng['max']!r}, step={rng['step']!r}) raises {show(pa.value)[:60] if pa.value is not None else ''}: the definition of a number with such a range cannot be built, a getProperties for it (and for every property after it in the reply) goes unanswered", fi=init, text=f"range-raises:{label}", witness=f"properties.Number('A', min={rng['min']!r}, max={rng['max']!r}, step={rng['step']!r})")
+            bad = True
+            continue
+        for k, v in rng.items():
+            got = o.attrs.get(k)
+            if not (isinstance(got, Const) and got.v == v and type(got.v) is type(v)):
+                ctx.violated("C07.RANGE", f"{ci.short}[{label}]", f"declared {k}={v!r} is carried as {show(got) if got is not None else None}", fi=init, text=f"range-altered:{label}:{k}")
+                bad = True
+    if not bad:
+        ctx.holds("C07.RANGE", ci.short, f"{n} declared ranges (defaults, ordinary, exponent-form floats, integers) are carried unchanged", ci=ci)
+
+
 RULES = [
+    ("C07.RANGE", rule_range, "a number definition carries any declared min / max / step (also 1e-05, 1e20) unchanged"),
     ("C07.META", rule_meta, "every emitted field comes from the right source (own definition/state/group/device; element format)"),
     ("C07.ADDRESS", rule_address, "Driver and Proxy: accepts() + message_from_client answer only requests that name no device or this device"),
     ("C07.BRANCH", rule_branch, "getProperties answered with exactly the requested definitions; send_message drops None"),
